@@ -181,6 +181,11 @@ def do_replay(pid, path):
     mod = comp_module(body["component"])
     case = mod.case_from_record(rec0)
     rec = mod.run(case, replay=rec0.draws)
+    if isinstance(rec, list):
+        if not rec:
+            print("replay produced no record on the current tree")
+            return 0
+        rec = rec[0]
     violated = mod.ORACLES[pid](rec)
     if violated:
         print("replay reproduces: " + "; ".join(violated[:3]))
